@@ -28,7 +28,8 @@ META = {
              'vs generation+attach+analysis); all SHA-256 digests of the canonical serialisation per case and per '
              'kind (bare / analysed) must be one; non-trivial = graph has >= 2 nodes and >= 1 edge; '
              'distinct = digest(spec, model)'
-             '; added strata: all four switch combinations of create_attack_graph by keyword and by position, attach on the older of two graphs of one model, by-hand attacker registrations before a later generation'),
+             '; added strata: all four switch combinations of create_attack_graph by keyword and by position, attach on the older of two graphs of one model, by-hand attacker registrations before a later generation'
+             '; round 7: the analysed graph object regenerates twice and is attached / analysed again (must serialise like the constructor route); language graph built through four routes'),
     'assumptions': ['the MAL printer emits the language the spec denotes (C04)',
                     'like-for-like comparison: routes that load the model from a file rely on save/load preserving the model (C07)'],
     'shards': {'quick': 8, 'thorough': 16},
